@@ -600,6 +600,10 @@ sim_violation(const char *prop, const char *cls, const char *fmt, ...)
 {
 	va_list ap;
 	va_start(ap, fmt);
+	if (getenv("SIM_DUMP_NET") != NULL) { // debugging aid: state of the simulated sockets
+		extern void simnet_dump(void);
+		simnet_dump();
+	}
 	sim_vviolation(prop, cls, fmt, ap);
 }
 
